@@ -186,12 +186,12 @@ func c19Func(r *Report, p *Prog, name string, nilResults []int, needNilTest bool
 					continue
 				}
 				nRet++
-				eres := ret.Results[len(ret.Results)-1]
+				eres := retVals(ret)[len(retVals(ret))-1]
 				if !provablyNonNilError(eres, g.Err) {
 					problems = append(problems, "return at "+p.InstrPos(ret)+" does not carry a provably non-nil error ("+valName(eres)+")")
 				}
 				for _, k := range nilResults {
-					if !isNilConst(ret.Results[k]) {
+					if !isNilConst(retVals(ret)[k]) {
 						problems = append(problems, fmt.Sprintf("return at %s yields a non-nil result #%d next to the error", p.InstrPos(ret), k))
 					}
 				}
@@ -249,7 +249,7 @@ func c19Func(r *Report, p *Prog, name string, nilResults []int, needNilTest bool
 				for _, in := range b.Instrs {
 					if ret, isR := in.(*ssa.Return); isR {
 						nret++
-						if !provablyNonNilError(ret.Results[len(ret.Results)-1], nil) {
+						if !provablyNonNilError(retVals(ret)[len(retVals(ret))-1], nil) {
 							good = false
 						}
 					}
@@ -351,7 +351,7 @@ func drawHelperInfo(p *Prog, cal *ssa.Function, rdIdx int) (bufIdx int, problems
 			if !ok {
 				continue
 			}
-			ev := ret.Results[nres-1]
+			ev := retVals(ret)[nres-1]
 			switch {
 			case fail[b] && !g.OkSucc.Dominates(b):
 				if !provablyNonNilError(ev, g.Err) {
